@@ -137,7 +137,7 @@ def gen_history(ch: Choices, known: dict):
 def gen_wide(ch: Choices, known: dict):
     """Many independent problems, each solved once or twice: the workload of the mode differential (one interpreted
     and one compiled interpreter execute the same long list of calls)."""
-    opts = {"gcc_zero_cap": not known.get("gcc_zero_cap_excluded", False), "max_space": 400, "max_props": 3}
+    opts = {"gcc_zero_cap": not known.get("gcc_zero_cap_excluded", False), "max_space": 400, "max_props": 3, "pad_chance": 12}
     nm = 24 + ch.choose(17, "nmodels")
     models, ops = [], []
     for i in range(nm):
